@@ -91,8 +91,10 @@ class Prop(BaseProp):
             ip, rend = impl.outcome(lambda: (_ for _ in ()).throw(ex)), None
         except BaseException as ex:  # noqa
             ip, rend = [T('other'), type(ex).__name__], None
-        rep = drv.call_many([(T('parse'), table, False, False, False, text)])
+        rep = drv.call_many([(T('parse'), table, False, False, False, text), (T('premises'), table)])
         mp = impl.model_outcome_c(rep[0])
+        # the table premises of the theorems C04_in_context / C04_alone, evaluated by the Lean definitions (distribution only)
+        tags.append('thm-premises: opwordfree=%d kwowned=%d namesunique=%d' % tuple(int(bool(x)) for x in rep[1]))
         if ok:
             want = [T('ok'), case['expected']]
             if ip != want:
